@@ -61,7 +61,7 @@ exit "$st"
 const saySrc = "#!/bin/bash\nprintf '%s\\n' \"$1\"\n"
 
 func boxFiles() map[string]string {
-	return map[string]string{"p1": probeSrc, "p2": probeSrc, "p3": probeSrc, "say": saySrc, "x": "decoy: a one-letter file name so that ? and * have something to match\n", "log/.keep": ""}
+	return map[string]string{"p1": probeSrc, "p2": probeSrc, "p3": probeSrc, "p4": probeSrc, "p5": probeSrc, "say": saySrc, "x": "decoy: a one-letter file name so that ? and * have something to match\n", "log/.keep": ""}
 }
 
 func logLine(args []string) string {
@@ -101,11 +101,13 @@ func probeRun(name, stdin string, args []string) (out string, status int) {
 // programs
 
 // The 12 representative argument strings, by key name.
-var argNames = []string{"a", "empty", "b_c", "lead", "star", "qmark", "semi", "dollar", "dq", "sq", "dashn", "bslash", "b__c", "trail", "tab", "b_sq", "b_dq", "b_star"}
+var argNames = []string{"a", "empty", "b_c", "lead", "star", "qmark", "semi", "dollar", "dq", "sq", "dashn", "bslash", "b__c", "trail", "tab", "b_sq", "b_dq", "b_star", "pct", "pct_s"}
 var argValue = map[string]string{"a": "a", "empty": "", "b_c": "b c", "lead": " lead", "star": "*", "qmark": "?", "semi": "a;b",
 	"dollar": "$HOME", "dq": `"q"`, "sq": "'q'", "dashn": "-n", "bslash": `\`, "b__c": "b  c", "trail": "t  ", "tab": "x\ty",
 	// a blank TOGETHER with a quote or a glob character (whatever quoting a blank triggers must still be right for the rest)
-	"b_sq": "it's a", "b_dq": `say "hi" x`, "b_star": "a *"}
+	"b_sq": "it's a", "b_dq": `say "hi" x`, "b_star": "a *",
+	// a percent sign (a format verb to a careless printf / Sprintf)
+	"pct": "100%", "pct_s": "%s x %d"}
 
 var origins = []string{"literal", "var", "concat", "call", "capture"}
 
@@ -652,6 +654,28 @@ func pipelineCases(thorough bool) []Case {
 							out = append(out, Case{Kind: "pipeline", Stages: stages, Mode: m, Coord: coord + " ctx=function", InFunc: true})
 						}
 					}
+				}
+			}
+		}
+	}
+	// chains of four and five stages (beyond the property's stated 1..3: every stage must still be there, in order)
+	for L := 4; L <= 5; L++ {
+		for _, mid := range []int{0, 3} {
+			for _, last := range []int{0, 37} {
+				for _, m := range modes {
+					var stages [][]Arg
+					pr := make([]int, L-1)
+					pr[L/2] = mid
+					for s := 0; s < L; s++ {
+						st := last
+						if s < L-1 {
+							st = pr[s]
+						}
+						stages = append(stages, []Arg{aux(fmt.Sprintf("exit:%d", st)), lit("a")})
+					}
+					coord := fmt.Sprintf("pipeline=%d argpat=one tail=one prior=%s status=%d mode=%s", L, strings.Trim(strings.ReplaceAll(fmt.Sprint(pr), " ", ","), "[]"), last, m)
+					out = append(out, Case{Kind: "pipeline", Stages: stages, Mode: m, Coord: coord})
+					out = append(out, Case{Kind: "pipeline", Stages: stages, Mode: m, Coord: coord + " ctx=function", InFunc: true})
 				}
 			}
 		}
